@@ -249,11 +249,61 @@ fn gen_cfg(rng: &mut Rng, max_logd: u32, want_compatible: bool) -> Cfg {
         if c.compatible() == want_compatible { return c; }
     }
 }
+/// a position multiset with a deliberate collision: two listed positions (indexes `pair.0 <
+/// pair.1` of the list) that fall into the SAME opened row at folding depth `depth` (0 = already
+/// in the first layer: `p = p' mod domain/N`; 1, 2 = only after one / two folds), or the same
+/// position listed twice (`dup`); plus unrelated positions, partners in random order
+struct Collide { positions: Vec<usize>, pair: (usize, usize), depth: usize, kind: &'static str }
+
+fn collision_positions(rng: &mut Rng, c: &Cfg, kind_sel: u64) -> Collide {
+    let d = c.domain();
+    let n = c.ff;
+    let layers = c.opts().num_fri_layers(d);
+    let mut depth = match kind_sel % 4 { 0 | 1 => 0, 2 => 1, _ => 2 };
+    while depth > 0 && layers < depth + 1 { depth -= 1; }
+    let kind: &'static str = match (kind_sel % 4, depth) { (0, _) => "pos:collide-dup", (_, 0) => "pos:collide-0", (_, 1) => "pos:collide-1", _ => "pos:collide-2" };
+    let a = rng.below(d as u64) as usize;
+    let mut partners: Vec<usize> = vec![];
+    if kind_sel % 4 == 0 {
+        partners.push(a);
+        if rng.chance(1, 3) { partners.push(a); }
+    } else {
+        // row length at that depth: domain / N^(depth+1)
+        let mut row_len = d;
+        for _ in 0..=depth { row_len /= n; }
+        let span = d / row_len; // N^(depth+1) residues
+        let want = if depth == 0 { 1 + rng.below((n as u64 - 1).min(3)) as usize } else { 1 };
+        let mut tries = 0;
+        while partners.len() < want && tries < 100 {
+            tries += 1;
+            let k = 1 + rng.below(span as u64 - 1) as usize;
+            if depth > 0 && k % n == 0 { continue; }
+            let b = (a + k * row_len) % d;
+            if b != a && !partners.contains(&b) { partners.push(b); }
+        }
+        if partners.is_empty() { partners.push(a); }
+    }
+    let mut group = vec![a];
+    group.extend(partners);
+    // random order inside the group, unrelated positions around and between
+    for i in (1..group.len()).rev() { let j = rng.below(i as u64 + 1) as usize; group.swap(i, j); }
+    let mut positions: Vec<usize> = vec![];
+    let mut idxs = vec![];
+    for g in group {
+        for _ in 0..rng.below(3) { positions.push(rng.below(d as u64) as usize); }
+        idxs.push(positions.len());
+        positions.push(g);
+    }
+    for _ in 0..rng.below(3) { positions.push(rng.below(d as u64) as usize); }
+    let last = *idxs.last().unwrap();
+    Collide { positions, pair: (idxs[0], last), depth, kind }
+}
+
 /// query positions: drawn by the channel (None) or an explicit multiset
 fn gen_positions(rng: &mut Rng, c: &Cfg) -> (Option<Vec<usize>>, usize, &'static str) {
     let d = c.domain();
     let nq_max = (d - 1).min(48);
-    match rng.below(8) {
+    match rng.below(10) {
         0 => { let p = rng.below(d as u64) as usize; (Some(vec![p; rng.range(2, 5) as usize]), 1, "pos:same") },
         1 => { // a whole coset of the first folding plus repeats
             let p = rng.below((d / c.ff) as u64) as usize;
@@ -266,6 +316,7 @@ fn gen_positions(rng: &mut Rng, c: &Cfg) -> (Option<Vec<usize>>, usize, &'static
             let k = rng.range(1, 6) as usize;
             let pool: Vec<usize> = (0..k).map(|_| rng.below(d as u64) as usize).collect();
             (Some((0..rng.range(1, 24)).map(|_| *rng.pick(&pool)).collect()), 1, "pos:dups") },
+        5 | 6 => { let k = rng.below(4); let cl = collision_positions(rng, c, k); (Some(cl.positions), 1, cl.kind) },
         _ => (None, rng.range(1, nq_max as u64) as usize, "pos:drawn"),
     }
 }
@@ -282,7 +333,7 @@ fn req_e2e<E: Fld>(fam: &str, hname: &str, c: &Cfg, max_deg: usize, deg: Option<
 // ---------------------------------------------------------------------------------------------
 // C08: honest runs
 // ---------------------------------------------------------------------------------------------
-fn c08_case<E: Fld, H: ElementHasher<BaseField = E::BaseField>>(rng: &mut Rng, out: &mut Out, hname: &str, c: &Cfg, case_no: usize) {
+fn c08_case<E: Fld, H: ElementHasher<BaseField = E::BaseField>>(rng: &mut Rng, out: &mut Out, hname: &str, c: &Cfg, case_no: usize, force_collide: Option<u64>) {
     let s = spec(E::NAME);
     let bound = c.bound_plus_1() - 1;
     let (deg, zero, dclass) = match rng.below(9) {
@@ -296,7 +347,10 @@ fn c08_case<E: Fld, H: ElementHasher<BaseField = E::BaseField>>(rng: &mut Rng, o
     };
     let shape = rng.below(3);
     let coeffs: Vec<E> = if zero { vec![E::ZERO] } else { poly_of_degree(rng, &s, deg, shape) };
-    let (custom, nq, pclass) = gen_positions(rng, c);
+    let (custom, nq, pclass) = match force_collide {
+        Some(k) => { let cl = collision_positions(rng, c, k); (Some(cl.positions), 1, cl.kind) },
+        None => gen_positions(rng, c),
+    };
     out.count(dclass); out.count(pclass);
     out.count(&format!("field:{}", E::NAME)); out.count(&format!("hash:{hname}"));
     out.count(&format!("ff:{}", c.ff)); out.count(&format!("rmd:{}", c.rmd)); out.count(&format!("blowup:{}", c.blowup));
@@ -400,7 +454,7 @@ fn c09_case<E: Fld, H: ElementHasher<BaseField = E::BaseField>>(rng: &mut Rng, o
         _ => {
             let deg = if rng.chance(1, 2) { bound } else { rng.below(bound as u64 + 1) as usize };
             let evals = evaluate(&poly_of_degree::<E>(rng, &s, deg, 0), domain);
-            let class: &str = match class_sel { 7 => "xlayer", 8 => "xrem", 9 => "xadapt", 10 => "xdrop", _ => "xextra" };
+            let class: &str = match class_sel { 7 => "xlayer", 8 => "xrem", 9 => "xadapt", 10 => "xdrop", 11 => "xextra", 12 => "xeval", _ => "xlayerc" };
             // the adaptive attack needs fewer distinct last-layer positions than remainder coefficients
             let nq = if class == "xadapt" { rng.range(1, 6) as usize } else { nq };
             let mut detail = String::new();
@@ -408,7 +462,16 @@ fn c09_case<E: Fld, H: ElementHasher<BaseField = E::BaseField>>(rng: &mut Rng, o
             let mut applicable = true;
             let mut got_main = String::new();
             // the honest transcript is produced first (outside the observed closure: it is C08's subject)
-            let h = match std::panic::catch_unwind(std::panic::AssertUnwindSafe(|| prove::<E, H>(&opts, &evals, nq, None))) { Ok(h) => h, Err(_) => return };
+            // query positions: drawn by the channel, or (xeval / xlayerc) a set with a deliberate collision
+            let ksel = rng.below(4);
+            let collide: Option<Collide> = match class {
+                "xlayerc" => Some(collision_positions(rng, c, ksel)),
+                "xeval" if case_no % 3 != 0 => Some(collision_positions(rng, c, ksel)),
+                _ => None,
+            };
+            let custom: Option<Vec<usize>> = collide.as_ref().map(|cl| cl.positions.clone());
+            let h = match std::panic::catch_unwind(std::panic::AssertUnwindSafe(|| prove::<E, H>(&opts, &evals, nq, custom.as_deref()))) { Ok(h) => h, Err(_) => return };
+            let mut q_evals = h.q_evals.clone();
             let honest_ok = run_verifier::<E, H>(h.proof.clone(), &h.commitments, &h.q_evals, &h.positions, bound, domain, &opts).is_ok();
             if !honest_ok { return; }
             let mut bytes = h.proof.to_bytes();
@@ -466,6 +529,42 @@ fn c09_case<E: Fld, H: ElementHasher<BaseField = E::BaseField>>(rng: &mut Rng, o
                         detail = format!("lastpos={} remsize={r}", pos.len());
                     }
                 },
+                "xeval" => {
+                    // ONE caller-supplied query evaluation is wrong; with a collision set: the
+                    // later-listed or the earlier-listed partner of the colliding pair
+                    let (idx, which) = match (&collide, rng.below(5)) {
+                        (Some(cl), 0 | 1) => (cl.pair.1, "later"),
+                        (Some(cl), 2) => (cl.pair.0, "earlier"),
+                        (_, 3) => (0, "first"),
+                        (_, 4) => (q_evals.len() - 1, "last"),
+                        _ => (rng.below(q_evals.len() as u64) as usize, "random"),
+                    };
+                    let delta: E = if rng.chance(1, 2) { E::ONE } else { nonzero_elem(rng, &s) };
+                    q_evals[idx] += delta;
+                    detail = format!("{} idx={idx}:{which} pos={}", collide.as_ref().map_or("pos:drawn", |cl| cl.kind), show_nats(&h.positions));
+                },
+                "xlayerc" => {
+                    // the opened layer value belonging to ONE partner of the colliding pair is altered,
+                    // in the layer where the two partners share a row
+                    let cl = collide.as_ref().unwrap();
+                    if lay.values.len() <= cl.depth { applicable = false; } else {
+                        let which = if rng.chance(1, 2) { "later" } else { "earlier" };
+                        let target = h.positions[if which == "later" { cl.pair.1 } else { cl.pair.0 }];
+                        let (mut pos, mut dd) = (h.positions.clone(), domain);
+                        for _ in 0..cl.depth { pos = fold_positions(&pos, dd, c.ff); dd /= c.ff; }
+                        let row_len = dd / c.ff;
+                        let folded = fold_positions(&pos, dd, c.ff);
+                        let pt = target % dd;
+                        let row = folded.iter().position(|&v| v == pt % row_len).unwrap();
+                        let k = row * c.ff + pt / row_len;
+                        let (off, _) = lay.values[cl.depth];
+                        let e: E = read_elem(&bytes[off + k * eb..off + (k + 1) * eb]);
+                        let delta: E = if rng.chance(1, 2) { E::ONE } else { nonzero_elem(rng, &s) };
+                        write_elem(&mut bytes[off + k * eb..off + (k + 1) * eb], e + delta);
+                        bad_layer = Some(cl.depth);
+                        detail = format!("{} layer={} row={row} col={} partner={which} pos={}", cl.kind, cl.depth, pt / row_len, show_nats(&h.positions));
+                    }
+                },
                 "xextra" => {
                     // repeat the last layer of the proof (one layer more than commitments allow)
                     if lay.values.is_empty() { applicable = false; } else {
@@ -494,13 +593,15 @@ fn c09_case<E: Fld, H: ElementHasher<BaseField = E::BaseField>>(rng: &mut Rng, o
             }
             if !applicable { return; }
             out.count(class);
+            if let Some(cl) = &collide { out.count(&format!("{class}:{}", cl.kind)); }
+            out.count(&format!("{class}:ff{}", c.ff));
             let req = req_e2e::<E>("c09", hname, c, bound, Some(deg), class, &format!("#{case_no} nq={nq} {detail}"));
             out.case(&req, "reject", || {
                 let proof = match FriProof::read_from_bytes(&bytes) { Ok(p) => p, Err(_) => { got_main = "err Deserialization".to_string(); return "reject".to_string(); } };
-                let r = run_verifier::<E, H>(proof.clone(), &h.commitments, &h.q_evals, &h.positions, bound, domain, &opts);
+                let r = run_verifier::<E, H>(proof.clone(), &h.commitments, &q_evals, &h.positions, bound, domain, &opts);
                 got_main = detailed(&r);
                 if small {
-                    if let Some(l) = transcript_line::<E, H>(&opts, bound, &proof, &h.commitments, &h.q_evals, &h.positions, domain, bad_layer, rem_ok) { tr = Some((l, detailed(&r))); }
+                    if let Some(l) = transcript_line::<E, H>(&opts, bound, &proof, &h.commitments, &q_evals, &h.positions, domain, bad_layer, rem_ok) { tr = Some((l, detailed(&r))); }
                 }
                 verdict(&r)
             });
@@ -511,7 +612,7 @@ fn c09_case<E: Fld, H: ElementHasher<BaseField = E::BaseField>>(rng: &mut Rng, o
                 // transcript with remainderOk forced to 1 -> `ok`)
                 if let Ok(proof) = FriProof::read_from_bytes(&bytes) {
                     if small {
-                        if let Some(l) = transcript_line::<E, H>(&opts, bound, &proof, &h.commitments, &h.q_evals, &h.positions, domain, None, true) {
+                        if let Some(l) = transcript_line::<E, H>(&opts, bound, &proof, &h.commitments, &q_evals, &h.positions, domain, None, true) {
                             out.count("xadapt:consistent-at-queries");
                             // implementation column: the attack is accepted by every check except the hash comparison
                             let expect_ok = got_main == "err RemainderCommitmentMismatch";
@@ -681,29 +782,50 @@ fn c08_combo<E: Fld, H: ElementHasher<BaseField = E::BaseField>>(rng: &mut Rng, 
                 let c = Cfg { blowup, ff, rmd, logd };
                 if rmd > 7 && logd == 5 && (ff + rmd) % 3 != 0 { continue; }
                 if !c.compatible() { continue; }
-                c08_case::<E, H>(rng, out, hname, &c, case_no); case_no += 1;
+                c08_case::<E, H>(rng, out, hname, &c, case_no, None); case_no += 1;
             }
+        }
+    }
+    // collision-rich position sets (same row at depth 0 / 1 / 2, duplicates) for every folding factor
+    for &ff in &[2usize, 4, 8, 16] {
+        for kind in 0..4u64 {
+            let mut c = gen_cfg(rng, 10, true);
+            for _ in 0..200 {
+                if c.ff == ff && c.opts().num_fri_layers(c.domain()) >= (kind as usize).min(if ff >= 8 { 2 } else { 3 }) { break; }
+                c = gen_cfg(rng, 11, true);
+            }
+            if c.ff != ff { continue; }
+            c08_case::<E, H>(rng, out, hname, &c, case_no, Some(kind)); case_no += 1;
         }
     }
     for i in 0..n {
         let logd_cap = if i % 4 == 0 { max_logd } else { max_logd.min(10) };
         let c = gen_cfg(rng, logd_cap, true);
-        c08_case::<E, H>(rng, out, hname, &c, case_no); case_no += 1;
+        c08_case::<E, H>(rng, out, hname, &c, case_no, None); case_no += 1;
     }
     // parameter combinations on which the degree bookkeeping does not divide evenly (the property
     // quantifies over ALL blowup / folding / remainder / domain combinations)
     for _ in 0..(n / 8).max(1) {
         let c = gen_cfg(rng, 8, false);
-        c08_case::<E, H>(rng, out, hname, &c, case_no); case_no += 1;
+        c08_case::<E, H>(rng, out, hname, &c, case_no, None); case_no += 1;
     }
 }
 
 fn c09_combo<E: Fld, H: ElementHasher<BaseField = E::BaseField>>(rng: &mut Rng, out: &mut Out, hname: &str, n: usize, max_logd: u32) {
     let mut case_no = 0;
     for i in 0..n {
-        for class_sel in 0..=11u64 {
+        for class_sel in 0..=13u64 {
             let cap = if (i + class_sel as usize) % 3 == 0 { max_logd } else { 8 };
             let mut c = gen_cfg(rng, cap, true);
+            if class_sel >= 12 {
+                // supplied-evaluation / collision classes: every folding factor in turn, mostly with layers
+                let want_ff = [2usize, 4, 8, 16][(i + class_sel as usize) % 4];
+                for t in 0..300 {
+                    let layers = c.opts().num_fri_layers(c.domain());
+                    if c.ff == want_ff && (layers >= 1 || (t > 200)) && (class_sel == 12 || layers >= 1) { break; }
+                    c = gen_cfg(rng, cap.max(9), true);
+                }
+            }
             if class_sel == 9 {
                 // the adaptive attack needs a remainder with room: large remainder degree
                 for _ in 0..50 { if c.rmd >= 15 && c.bound_plus_1() > 16 { break; } c = gen_cfg(rng, cap.max(9), true); }
